@@ -120,7 +120,7 @@ func c02RunShift(c *fw.C, caseID string) {
 		block *nom.AccountBlock
 		patch []byte
 	}
-	for _, k := range []int{1, 2, 31} {
+	for _, k := range []int{1, 2, 31, 365} { // 365: the same old views are opened again more than an hour of momentums later (warm far-view caches)
 		F := P.Height()
 		st := P.Chain.GetFrontierMomentumStore()
 		var probes []probe
